@@ -39,7 +39,7 @@ func (e ext) String() string {
 func (e ext) class() string {
 	t := e.T
 	if e.Fam == "covered" {
-		t = e.X // the index pattern; the list and whole / partial are in the payload
+		t = e.X + "-" + e.T2 // the index pattern, whole / partial; the list is in the payload
 	} else if e.Fam == "decoded" {
 		t = e.T // the document is in the payload
 	} else if e.T2 != "" {
@@ -151,6 +151,7 @@ type mctx struct {
 	// noDirect: the entry changes the CONTENT of a supplement element. The supplement is the node's own data; ValidateBlock
 	// checks it against the accumulator before any transaction sees it, so such mutants go through ValidateBlock only.
 	noDirect bool
+	class    string      // when set, replaces the entry's class in keys (classes that depend on the transaction)
 	created  *createdIDs // ids of the elements the block creates, by kind (material for ids of another kind)
 }
 
@@ -472,6 +473,48 @@ func (m *mctx) apply(e ext) bool {
 		}
 	}
 	switch e.Fam {
+	case "confuse":
+		// ids of the elements the transactions of the block create, by kind, in order
+		var sc, sf, fc []types.Hash256
+		for _, t := range m.b.Transactions {
+			for i := range t.SiacoinOutputs {
+				sc = append(sc, types.Hash256(t.SiacoinOutputID(i)))
+			}
+			for i := range t.SiafundOutputs {
+				sf = append(sf, types.Hash256(t.SiafundOutputID(i)))
+			}
+			for i := range t.FileContracts {
+				fc = append(fc, types.Hash256(t.FileContractID(i)))
+			}
+		}
+		pool := map[string][]types.Hash256{"siacoin-output": sc, "siafund-output": sf, "contract": fc}[e.X]
+		if len(pool) == 0 || m.child >= m.cs.Network.HardforkV2.RequireHeight {
+			return false
+		}
+		id := pool[len(pool)-1]
+		uc := types.StandardUnlockConditions(m.sim.K.PK("A"))
+		var txn types.Transaction
+		switch e.T {
+		case "rev":
+			txn.FileContractRevisions = []types.FileContractRevision{{ParentID: types.FileContractID(id), UnlockConditions: uc,
+				FileContract: types.FileContract{WindowStart: m.child + 1, WindowEnd: m.child + 2, RevisionNumber: 1}}}
+		case "res":
+			txn.StorageProofs = []types.StorageProof{{ParentID: types.FileContractID(id)}}
+		case "sci":
+			txn.SiacoinInputs = []types.SiacoinInput{{ParentID: types.SiacoinOutputID(id), UnlockConditions: uc}}
+		case "sfi":
+			txn.SiafundInputs = []types.SiafundInput{{ParentID: types.SiafundOutputID(id), UnlockConditions: uc}}
+		default:
+			m.unknown = "confuse member " + e.T
+			return false
+		}
+		if e.T != "res" {
+			txn.Signatures = []types.TransactionSignature{{ParentID: id, CoveredFields: types.CoveredFields{WholeTransaction: true}}}
+		}
+		m.b.Transactions = append(m.b.Transactions, txn)
+		m.bs.Transactions = append(m.bs.Transactions, consensus.V1TransactionSupplement{})
+		m.ver, m.k = 1, len(m.b.Transactions)-1
+		return true
 	case "decoded":
 		if e.Ver == 1 {
 			var txn types.Transaction
@@ -594,6 +637,23 @@ func (m *mctx) apply(e ext) bool {
 		default:
 			m.unknown = "covered variant " + e.X
 			return false
+		}
+		// what the index list is relative to this transaction decides the class
+		kind, seen := "in-range", map[uint64]bool{}
+		for _, i := range idx {
+			if seen[i] {
+				kind = "repeated"
+			}
+			seen[i] = true
+		}
+		for _, i := range idx {
+			if i >= uint64(n) {
+				kind = "out-of-range"
+			}
+		}
+		m.class = fmt.Sprintf("covered/v1:%s-%s", kind, e.T2)
+		if len(idx) > 1000 {
+			m.keepSigs = true // signing again would hash the same quadratic pre-image in the harness
 		}
 		cf := types.CoveredFields{WholeTransaction: e.T2 == "whole"}
 		reflect.ValueOf(&cf).Elem().FieldByName(e.T).Set(reflect.ValueOf(idx))
@@ -791,23 +851,37 @@ func (m *mctx) applyParents(e ext) bool {
 		other = pool[len(pool)-1]
 	case "id-of-committed-other-kind":
 		found := false
+		fresh := map[types.Hash256]bool{} // created by this very block: not committed before it
+		if m.created != nil {
+			for _, l := range [][]types.Hash256{m.created.sc, m.created.sf, m.created.fc, m.created.v2fc} {
+				for _, id := range l {
+					fresh[id] = true
+				}
+			}
+		}
 		if wantContract {
 			sc := map[types.Hash256]bool{}
 			for id := range m.sim.Store.SC {
-				sc[types.Hash256(id)] = true
+				if !fresh[types.Hash256(id)] {
+					sc[types.Hash256(id)] = true
+				}
 			}
 			other, found = minID(sc)
 		} else {
 			fc := map[types.Hash256]bool{}
 			for id := range m.sim.Store.V2FC {
-				fc[types.Hash256(id)] = true
+				if !fresh[types.Hash256(id)] {
+					fc[types.Hash256(id)] = true
+				}
 			}
 			for id := range m.sim.Store.FC {
-				fc[types.Hash256(id)] = true
+				if !fresh[types.Hash256(id)] {
+					fc[types.Hash256(id)] = true
+				}
 			}
 			if len(fc) == 0 {
 				for id := range m.sim.Store.SF {
-					if e.T != "sfi" {
+					if e.T != "sfi" && !fresh[types.Hash256(id)] {
 						fc[types.Hash256(id)] = true
 					}
 				}
